@@ -108,7 +108,7 @@ example :
     the emitter -/
 theorem no_crash_growth_burst_partial (fs0 : FS) (hwf : fs0.WF) (full : Bool) (pre burst : List Op)
     (hv : allValid (Sys.start fs0 true full) pre = true) (hroot : Op.rmdir ["W"] ∉ pre)
-    (hb : allGrow ((Sys.start fs0 true full).run pre).1.fs burst = true) :
+    (hb : allFill ((Sys.start fs0 true full).run pre).1.fs burst = true) :
     (((Sys.start fs0 true full).run pre).1.burst burst).1.crashed = false ∧
     (((Sys.start fs0 true full).run pre).1.burst burst).1.stopped = false := by
   obtain ⟨inv, hs, hc⟩ := after_history fs0 hwf full pre hv hroot
